@@ -245,6 +245,172 @@ fn conv_layout(e: &Env, bs: usize, ci: usize, co: usize, h: usize, w: usize, kh:
     println!("{}", ev);
 }
 
+/// RNS-plaintext wrapper (big plain modulus T = t_1 * ... * t_k): encode / encrypt / evaluate / decrypt / decode must compute modulo T
+fn rnsp(rng: &mut impl Rng, n: usize, ts: &[u64], quick: bool) {
+    use heathcliff::app::rns_plain::*;
+    let k = ts.len();
+    let big_t: u64 = ts.iter().product();
+    let parms = RnspEncryptionParameters::new(SchemeType::BFV)
+        .set_poly_modulus_degree(n)
+        .set_plain_modulus(ts.iter().map(|&t| Modulus::new(t)).collect())
+        .set_coeff_modulus(CoeffModulus::create(n, vec![50, 50, 50, 50]));
+    let ctx = RnspHeContext::new(parms, true, SecurityLevel::None);
+    let kg = RnspKeyGenerator::new(&ctx);
+    let enc = RnspBatchEncoder::new(&ctx);
+    let encryptor = RnspEncryptor::new(&ctx).set_public_key(kg.create_public_key(false)).set_secret_key(kg.get_secret_key());
+    let dec = RnspDecryptor::new(&ctx, kg.get_secret_key());
+    let ev = RnspEvaluator::new(&ctx);
+    let rlk = kg.create_relin_keys(false);
+    // a value v < T as k little-endian words
+    let words = |v: &[u64]| -> Vec<u64> {
+        let mut out = vec![];
+        for &x in v {
+            out.push(x);
+            out.extend(std::iter::repeat(0).take(k - 1));
+        }
+        out
+    };
+    let unwords = |w: &[u64]| -> Vec<u64> { w.chunks(k).map(|c| if c[1..].iter().all(|&x| x == 0) { c[0] } else { u64::MAX }).collect() };
+    let reps = if quick { 3 } else { 12 };
+    for r in 0..reps {
+        let mk = |rng: &mut dyn rand::RngCore, r: usize| -> Vec<u64> {
+            (0..n).map(|i| match (r + i) % 5 { 0 => 0, 1 => big_t - 1, 2 => ts[0] % big_t, _ => rng.next_u64() % big_t }).collect()
+        };
+        let a = mk(rng, r);
+        let b = mk(rng, r + 1);
+        for poly in [false, true] {
+            // (products are judged with native TLC integers: only for T below 2^15.5)
+            let ops: &[&str] = if poly || big_t > 46340 { &["id", "neg", "add", "sub", "add_plain", "sub_plain"] } else { &["id", "neg", "add", "sub", "mul", "square", "add_plain", "sub_plain", "mul_plain"] };
+            for op in ops {
+                for sym in [false, true] {
+                    if quick && sym && (r + op.len()) % 2 == 0 {
+                        continue;
+                    }
+                    let mut e = json!({"k": "rnsp", "op": op, "poly": poly, "sym": sym, "moduli": ts, "N": n, "a": a, "b": b});
+                    let out = guarded(|| {
+                        let pa = if poly { enc.encode_polynomial_new(&words(&a)) } else { enc.encode_new(&words(&a)) };
+                        let pb = if poly { enc.encode_polynomial_new(&words(&b)) } else { enc.encode_new(&words(&b)) };
+                        let ca = if sym { encryptor.encrypt_symmetric_new(&pa).expand_seed(&ctx) } else { encryptor.encrypt_new(&pa) };
+                        let cb = encryptor.encrypt_new(&pb);
+                        let c = match *op {
+                            "id" => ca,
+                            "neg" => ev.negate_new(&ca),
+                            "add" => ev.add_new(&ca, &cb),
+                            "sub" => ev.sub_new(&ca, &cb),
+                            "mul" => ev.relinearize_new(&ev.multiply_new(&ca, &cb), &rlk),
+                            "square" => ev.relinearize_new(&ev.square_new(&ca), &rlk),
+                            "add_plain" => ev.add_plain_new(&ca, &pb),
+                            "sub_plain" => ev.sub_plain_new(&ca, &pb),
+                            _ => ev.multiply_plain_new(&ca, &pb),
+                        };
+                        let p = dec.decrypt_new(&c);
+                        unwords(&if poly { enc.decode_polynomial_new(&p) } else { enc.decode_new(&p) })
+                    });
+                    match out {
+                        Ok(o) => e["out"] = json!(o),
+                        Err(m) => {
+                            e["out"] = json!([]);
+                            e["panic"] = json!(m);
+                        }
+                    }
+                    println!("{}", e);
+                }
+            }
+        }
+    }
+}
+
+/// CKKS variants of the coefficient-packing matmul and of conv2d: small integer operands, outputs recorded in units of 2^-10
+fn ckks_variants(rng: &mut impl Rng, quick: bool) {
+    let n = 32usize;
+    let parms = EncryptionParameters::new(SchemeType::CKKS).set_poly_modulus_degree(n).set_coeff_modulus(&CoeffModulus::create(n, vec![60, 40, 40, 60]));
+    let ctx = HeContext::new(parms.clone(), true, SecurityLevel::None);
+    let enc = CKKSEncoder::new(ctx.clone());
+    let kg = KeyGenerator::new(ctx.clone());
+    let encryptor = Encryptor::new(ctx.clone()).set_public_key(kg.create_public_key(false)).set_secret_key(kg.secret_key().clone());
+    let dec = Decryptor::new(ctx.clone(), kg.secret_key().clone());
+    let ev = Evaluator::new(ctx.clone());
+    let auto = kg.create_automorphism_keys(false);
+    let scale = 2f64.powi(40);
+    let q_drop = parms.coeff_modulus()[parms.coeff_modulus().len() - 2].value() as f64;
+    let small = |rng: &mut dyn rand::RngCore, len: usize| -> Vec<i64> { (0..len).map(|_| (rng.next_u64() % 11) as i64 - 5).collect() };
+    let f = |v: &[i64]| -> Vec<f64> { v.iter().map(|&x| x as f64).collect() };
+    let units = |v: &[f64]| -> Vec<i64> { v.iter().map(|&x| (x * 1024.0).round() as i64).collect() };
+    let mx = if quick { 3 } else { 5 };
+    for m in 1..=mx {
+        for r in 1..=mx {
+            for nn in 1..=mx {
+                for pack in [false, true] {
+                    if quick && (m + r + nn + pack as usize) % 2 == 1 {
+                        continue;
+                    }
+                    let (x, w, bias) = (small(rng, m * r), small(rng, r * nn), small(rng, m * nn));
+                    let mut e = json!({"k": "matmul_ckks", "helper": "cheetah_ckks", "pack": pack, "N": n, "m": m, "r": r, "n": nn, "x": x, "w": w, "bias": bias});
+                    let out = guarded(|| {
+                        let h = MatmulHelper::new(m, r, nn, n, MatmulHelperObjective::CipherPlain, pack);
+                        let xc = h.encode_inputs_ckks(&enc, &f(&x), None, scale).encrypt_symmetric(&encryptor).expand_seed(&ctx);
+                        let we = h.encode_weights_ckks(&enc, &f(&w), None, scale);
+                        let mut y = h.matmul(&ev, &xc, &we);
+                        if pack {
+                            y = h.pack_outputs(&ev, &auto, &y);
+                        }
+                        let be = h.encode_outputs_ckks(&enc, &f(&bias), None, scale * scale / q_drop);
+                        y.rescale_to_next_inplace(&ev);
+                        y.add_plain_inplace(&ev, &be);
+                        units(&h.decrypt_outputs_ckks(&enc, &dec, &y))
+                    });
+                    match out {
+                        Ok(o) => e["y1024"] = json!(o),
+                        Err(msg) => {
+                            e["y1024"] = json!([]);
+                            e["panic"] = json!(msg);
+                        }
+                    }
+                    println!("{}", e);
+                }
+            }
+        }
+    }
+    let hs: Vec<usize> = if quick { vec![2, 3, 5] } else { vec![2, 3, 4, 5, 6, 7] };
+    for &h in &hs {
+        for &w in &hs {
+            for kh in 1..=2usize {
+                for kw in 1..=2usize {
+                    if kh > h || kw > w {
+                        continue;
+                    }
+                    for (bs, ci, co) in [(1usize, 1usize, 1usize), (1, 2, 1), (2, 1, 2)] {
+                        if quick && (h + w + kh + kw + bs + ci) % 2 == 1 {
+                            continue;
+                        }
+                        let (oh, ow) = (h - kh + 1, w - kw + 1);
+                        let (x, wt, bias) = (small(rng, bs * ci * h * w), small(rng, co * ci * kh * kw), small(rng, bs * co * oh * ow));
+                        let mut e = json!({"k": "conv_ckks", "helper": "conv2d_ckks", "N": n, "bs": bs, "ci": ci, "co": co, "h": h, "wd": w, "kh": kh, "kw": kw, "x": x, "w": wt, "bias": bias});
+                        let out = guarded(|| {
+                            let hp = Conv2dHelper::new(bs, ci, co, h, w, kh, kw, n, Conv2dHelperObjective::CipherPlain);
+                            let xc = hp.encode_inputs_ckks(&enc, &f(&x), None, scale).encrypt_symmetric(&encryptor).expand_seed(&ctx);
+                            let we = hp.encode_weights_ckks(&enc, &f(&wt), None, scale);
+                            let mut y = hp.conv2d(&ev, &xc, &we);
+                            let be = hp.encode_outputs_ckks(&enc, &f(&bias), None, scale * scale / q_drop);
+                            y.rescale_to_next_inplace(&ev);
+                            y.add_plain_inplace(&ev, &be);
+                            units(&hp.decrypt_outputs_ckks(&enc, &dec, &y))
+                        });
+                        match out {
+                            Ok(o) => e["y1024"] = json!(o),
+                            Err(msg) => {
+                                e["y1024"] = json!([]);
+                                e["panic"] = json!(msg);
+                            }
+                        }
+                        println!("{}", e);
+                    }
+                }
+            }
+        }
+    }
+}
+
 pub fn main(args: &[String]) {
     silence_panics();
     let quick = args[0] == "quick";
@@ -320,6 +486,17 @@ pub fn main(args: &[String]) {
             for which in ["bolt_cp", "bolt_cc_cr", "bolt_cc_dc"] {
                 bolt(&e, &mut rng, which, m, r, n);
             }
+        }
+    }
+    if part == "all" || part == "ckks" {
+        ckks_variants(&mut rng, quick);
+    }
+    if part == "all" || part == "rnsp" {
+        rnsp(&mut rng, 8, &[17, 97], quick);
+        rnsp(&mut rng, 8, &[97, 113], quick);
+        rnsp(&mut rng, 16, &[97, 193], quick);
+        if !quick {
+            rnsp(&mut rng, 8, &[17, 97, 113], quick);
         }
     }
     if part == "all" || part == "conv" {
